@@ -894,8 +894,8 @@ package xmpp
 // ---------------------------------------------------------------------------
 // C05: what the stanza encoder forwards to the wire encoder.
 //@ spec stanzaName(n xml.Name) bool = (n.Local == "iq" || n.Local == "message" || n.Local == "presence") && (n.Space == "jabber:client" || n.Space == "jabber:server" || n.Space == "")
-//@ spec isID(a xml.Attr) bool = a.Name.Space == "" && a.Name.Local == "id" && a.Value != ""
-//@ spec isFrom(a xml.Attr) bool = a.Name.Space == "" && a.Name.Local == "from" && a.Value != ""
+//@ spec isID(a xml.Attr) bool = a.Name == mk(xml.Name, "", "id") && a.Value != ""
+//@ spec isFrom(a xml.Attr) bool = a.Name == mk(xml.Name, "", "from") && a.Value != ""
 
 //@ func isStanzaEmptySpace
 //@   ensures[C05] result == stanzaName(name)
